@@ -35,7 +35,8 @@ const KEEP_PER_CLASS_PER_CASE: u32 = 3;
 fn style_tag(s: &Style) -> String {
     let bold = s.get_font().map(|f| *f.get_bold()).unwrap_or(false);
     let fill = s.get_background_color().map(|c| c.get_argb().to_string()).unwrap_or_default();
-    let nf = s.get_numbering_format().map(|n| n.get_format_code().to_string()).unwrap_or_default();
+    // a loaded style spells the default number format out: "General" is the same as none
+    let nf = s.get_numbering_format().map(|n| n.get_format_code().to_string()).filter(|c| c != "General").unwrap_or_default();
     format!("{}|{}|{}", bold as u8, fill, nf)
 }
 const STYLE_TAGS: [&str; 3] = ["0||", "1||", "0|FFFFFF00|0.00"];
@@ -376,7 +377,9 @@ fn other_sheet_spec() -> SheetSpec {
     }
 }
 
-const SEED_NAMES: [&str; 4] = ["empty", "dense", "annotated", "grid-limits"];
+const SEED_NAMES: [&str; 6] = ["empty", "dense", "annotated", "grid-limits", "dense-reloaded", "annotated-reloaded"];
+/// seeds 4 and 5 are seeds 1 and 2 as the READER leaves them (saved to memory and loaded again)
+const RELOADED_OF: [Option<usize>; 6] = [None, None, None, None, Some(1), Some(2)];
 
 fn seed_specs(seed: usize) -> [SheetSpec; 2] {
     let first = match seed {
@@ -430,8 +433,17 @@ fn seed_specs(seed: usize) -> [SheetSpec; 2] {
 }
 
 fn build_seed(seed: usize) -> (Spreadsheet, RefBook) {
+    if let Some(base) = RELOADED_OF[seed] {
+        let (book, model) = build_seed(base);
+        if std::env::var("C07_DUMP_SEED").is_ok() {
+            let _ = std::fs::write(format!("/tmp/c07seed{}.xlsx", seed), crate::dump::save_bytes(&book, false).unwrap());
+        }
+        let (_, b2) = crate::dump::roundtrip(&book, false).expect("seed workbook saves and loads");
+        return (b2, model);
+    }
     let specs = seed_specs(seed);
-    let mut book = Spreadsheet::default();
+    // the documented constructor (theme + default style tables); Spreadsheet::default() alone cannot be saved validly
+    let mut book = umya_spreadsheet::new_file_empty_worksheet();
     let mut model = vec![];
     for (i, sp) in specs.iter().enumerate() {
         let ws = book.new_sheet(NAMES[i]).expect("new_sheet");
